@@ -1,6 +1,6 @@
 (* Dispatch/DC08.v — entry points of the C08 model (BIP32, xkey codec, blinding) on secp256k1. *)
 From Coq Require Import String.
-From V Require Import Base.Prelude Base.Ints Base.Disp Model.Pecc Model.Hd Model.HdStr Spec.Bip32.
+From V Require Import Base.Prelude Base.Ints Base.Disp Model.Pecc Model.Hd Model.HdStr Model.HdText Model.HdMemo Spec.Bip32.
 Open Scope string_scope.
 Open Scope Z_scope.
 
@@ -172,7 +172,76 @@ Definition dispatch (H : oracle) (fn : list Z) (args : list val) : val :=
     match args with [VB s] => vres vpriv (parse_priv_str Cv (o_hash256 H) s) | _ => bad_args end
   else if fn_is "parse_pub_str" fn then
     match args with [VB s] => vres vpub (parse_pub_str Cv (o_hash256 H) s) | _ => bad_args end
+  (* ---- the path texts the library writes (Model/HdText.v) ---- *)
+  else if fn_is "dec" fn then
+    match args with [VI z] => vtext (dec z) | _ => bad_args end
+  else if fn_is "path_text" fn then
+    match args with
+    | [VI m; VI mark; VL l] =>
+        match vals_ints l with Some idxs => vtext (path_text m mark idxs) | None => bad_args end
+    | _ => bad_args end
+  else if fn_is "secure_secret_path" fn then
+    match args with
+    | [VI depth; VL l] =>
+        match vals_ints l with
+        | Some draws => vres vtext (secure_secret_path_of depth draws)
+        | None => bad_args end
+    | _ => bad_args end
+  else if fn_is "get_private_key_path" fn then
+    match args with
+    | [VB purpose; VI net; VI account; VI ext; VI addr] =>
+        vtext (get_private_key_path purpose net account (negb (ext =? 0)) addr)
+    | _ => bad_args end
+  (* HDPrivateKey.get_private_key(...).secret: the f-string handed to the real traverse *)
+  else if fn_is "get_private_key" fn then
+    match args with
+    | [kv; VB purpose; VI account; VI ext; VI addr] =>
+        match get_priv kv with
+        | Some rk =>
+            vres_i (k <- rk ;;
+                    k' <- traverse_priv Cv hm h160 k
+                            (get_private_key_path purpose (sk_net k) account (negb (ext =? 0)) addr) ;;
+                    Ok (sk k'))
+        | None => bad_args end
+    | _ => bad_args end
+  (* ONE HDPublicKey object: raw_serialize() called once per listed depth, the attribute .depth
+     being reassigned to that value before each call (the _raw memo, Model/HdMemo.v) *)
+  else if fn_is "raw_serialize_history" fn then
+    match args with
+    | [kv; VL ds] =>
+        match get_pub kv, vals_ints ds with
+        | Some (Ok k), Some depths =>
+            VL (map vres_b (raw_serialize_history None
+                  (map (fun d => {| pk := pk k; pk_cc := pk_cc k; pk_depth := d; pk_pfp := pk_pfp k;
+                                    pk_num := pk_num k; pk_net := pk_net k; pk_ver := pk_ver k |}) depths)))
+        | Some Err, Some _ => VErr
+        | _, _ => bad_args end
+    | _ => bad_args end
   (* ---- Spec/Bip32.v, so that the independent transcription is also run against the code ---- *)
+  (* the public key tree: point, chain code, index path, version -> xpub bytes of the node *)
+  else if fn_is "spec_tree_pub" fn then
+    match args with
+    | [VL [VI x; VI y]; VB c; VL l; VB pv] =>
+        match vals_ints l with
+        | Some idxs =>
+            vopt (fun nd => VB (ser_pnode pv nd))
+                 (descend_pub Cv hm h160
+                    {| pn_key := (Some (x, y), c); pn_depth := 0; pn_pfp := [0;0;0;0]; pn_num := 0 |} idxs)
+        | None => bad_args end
+    | _ => bad_args end
+  (* the key tree and the serialization format of the standard: seed, index path, version bytes
+     -> [xprv bytes; xpub bytes] of the node, [] if the standard calls a step invalid *)
+  else if fn_is "spec_tree" fn then
+    match args with
+    | [VB seed; VL l; VB v; VB pv] =>
+        match vals_ints l with
+        | Some idxs =>
+            vopt (fun nd => VL [VB (ser_node_priv v nd); VB (ser_node_pub Cv pv nd)])
+                 (match master_node Cv hm seed with
+                  | Some mn => descend Cv hm h160 mn idxs
+                  | None => None end)
+        | None => bad_args end
+    | _ => bad_args end
   else if fn_is "spec_ckd_priv" fn then
     match args with
     | [VI k; VB c; VI i] =>
